@@ -73,6 +73,7 @@ func init() {
 		"strings.IndexByte":  strIndexByte,
 		"strings.Join":       strJoin,
 		"strings.Split":      strSplit,
+		"strings.SplitN":     strSplitN,
 		"strings.ToUpper":    strToUpper,
 		"strings.Title":      strTitle,
 		"strings.TrimSpace":  strTrimSpace,
@@ -1481,4 +1482,49 @@ func bytesIndexByte(c *CallCtx) (Value, bool) {
 		res = ts.Ite(hit, ts.Int(int64(i)), res)
 	}
 	return res, true
+}
+
+// strSplitN: single-byte separators; at most n pieces (n concrete).
+func strSplitN(c *CallCtx) (Value, bool) {
+	e, st, ts := c.e, c.st, c.e.ts
+	s, sep, n := c.args[0].(*Term), c.args[1].(*Term), c.args[2].(*Term)
+	if !n.IsConst() {
+		panic(pathEnd{kind: "unmodelled", msg: "strings.SplitN with symbolic n"})
+	}
+	lim := int(signed(n.BV, 64))
+	if s.IsConst() && sep.IsConst() {
+		ps := strings.SplitN(s.Str, sep.Str, lim)
+		if ps == nil {
+			return SliceV{P: e.nilPtr(), Len: ts.Int(0), Cap: ts.Int(0)}, true
+		}
+		items := make([]*Term, len(ps))
+		for i, p := range ps {
+			items[i] = ts.StrC(p)
+		}
+		return e.mkStrSlice(st, items), true
+	}
+	if !sep.IsConst() || len(sep.Str) != 1 || lim == 0 {
+		panic(pathEnd{kind: "unmodelled", msg: "strings.SplitN with symbolic/multi-byte separator"})
+	}
+	var items []*Term
+	rest := s
+	for k := 0; ; k++ {
+		if k > e.job.MaxLen {
+			panic(pathEnd{kind: "unwind", msg: "strings.SplitN pieces"})
+		}
+		if lim > 0 && len(items) == lim-1 {
+			items = append(items, rest)
+			break
+		}
+		ix := ts.StrIndexOf(rest, sep, ts.Int(0))
+		none := ts.BvCmp(OBvSlt, ix, ts.Int(0))
+		if e.branch(st, none) {
+			items = append(items, rest)
+			break
+		}
+		items = append(items, ts.StrSubstr(rest, ts.Int(0), ix))
+		off := ts.BvBin(OBvAdd, ix, ts.Int(1))
+		rest = ts.StrSubstr(rest, off, ts.BvBin(OBvSub, ts.StrLen(rest), off))
+	}
+	return e.mkStrSlice(st, items), true
 }
